@@ -176,6 +176,12 @@ _T["C06"] = ("Theorem framing: for every context (any table, any scripts, any st
 _T["C17"] = ("Theorems header_spec (every length below 10^9: '#', digit count 1..9, decimal length; fits the 12-byte scratch), block_spec, block_stream (every split of the data into chunks summing to the announced length: data unchanged, counted as one item at completion and not before), over_length_refused (-310, nothing written, remaining length unchanged), array_binary for every element size and BOTH host byte orders (elements big-endian for NORMAL, little-endian for SWAPPED; an empty array still counts as one item), array_bad_size.",
             "Lean kernel + standard axioms; translator for the block-header scratch size and conversion call; model tied to parser.c/utils.c by scripted differential testing with an independent streaming encoder as judge; the host of the harness is little-endian (the big-endian case is covered by the theorem only)",
             "Lean 4 theorems over the result-writer model + differential correspondence")
+_T["C02"] = ("Theorem dispatch_correct: for every context, every command table whose patterns belong to the grammar and satisfy C03's side condition (overlapping and duplicate patterns included), every script assignment and every well-formed message in the input buffer, the handler invocations and -113 errors produced by SCPI_Parse are, in message order and one per unit that has a header, the handler of the FIRST entry whose pattern language contains the unit's effective header (entered with exactly that header), or else one -113 whose text contains the header as written; the effective header follows the statement's rule (effective_rule), with the in-place composition proved to denote it. Builds on C13 (unit_spec) and C03 (match_iff_language).",
+            "Lean kernel + standard axioms; context model tied to parser.c/utils.c by scripted differential testing; handler traces judged against Spec/Message.lean recomputed from the raw message (hook reports each message)",
+            "Lean 4 theorem (induction over units with a buffer-geometry invariant) + differential correspondence")
+_T["C05"] = ("Theorems: missing_parameter (-109 for a mandatory, silence and absence for an optional one), reader_failure_has_error (no typed reader fails without queuing an error unless optional and absent), reader_success_is_silent, reader_by_token (the outcome of every reader on the token SCPI_Parameter delivers is the property's table: -104 / -138 / -131 / -224), parameter_delivers_next_item (comma discipline -103, next element of the data specification delivered whole with its extent, -151 otherwise), unit_accounting (-200 iff the handler failed without an error of its own, -108 iff unread data remains and nothing was queued). Hypotheses: choice names contain no NUL / '#'; the -350 overflow marker is not counted as an error of the unit.",
+            "Lean kernel + standard axioms; Spec/Params.lean is the property's table; libc strto* as specified in Model/Prim.lean; context model tied to parser.c/units.c by scripted differential testing with every reader x every data type",
+            "Lean 4 theorems (readers = specification table) + differential correspondence")
 _T["C01"] = ("PARTIAL BY NATURE. Theorems (Props/C01.lean): every recogniser keeps its cursor and token extent inside its input (from the C13 theorems, block recogniser included); the unit detector always makes progress and never leaves its input, so the unit loop of SCPI_Parse and the scan loop of SCPI_Input terminate; SCPI_Parse never exhausts its step budget, never composes a header before the start of the buffer and modifies no byte outside the message; SCPI_Input keeps position < buffer length for every chunk history; an over-long chunk copies nothing; SCPI_ParamCopyText and the array readers never store beyond the caller's capacity. These are statements about the algorithm as modelled: a C-level out-of-bounds read caused by a broken check-then-read pair, signed overflow or libc reading past a token cannot be exhibited by the model; for those the evidence is testing: every correspondence domain runs under ASan+UBSan with exact-size heap objects, canaries, a watchdog and the guarded buffer-tail poisoning hook, in four build configurations.",
             "Lean kernel + standard axioms for the bounds/termination theorems; memory safety and undefined arithmetic of the C code itself are observed by sanitizers under the generators (testing)",
             "Lean 4 bounds and termination theorems over the model + sanitizer-instrumented differential correspondence")
@@ -183,5 +189,5 @@ for _k, (_a, _b, _c) in _T.items():
     PROPS[_k]["level_text"], PROPS[_k]["level_note"], PROPS[_k]["technique"] = _a, _b, _c
 
 # properties whose theorem module is not complete yet are not claimed
-for _k in ("C02", "C08", "C09", "C04", "C15", "C16"):  # unclaimed
+for _k in ("C08", "C09", "C04", "C15", "C16"):  # unclaimed
     PROPS[_k]["unclaimed"] = True
